@@ -1,7 +1,9 @@
 #!/bin/bash
-# usage: seed_eval.sh <Cxx> <patchfile> <label> : apply a seeded change to /repo, run the check, undo
+# usage: seed_eval.sh <Cxx> <patchfile> <label> : apply a seeded change to a scratch worktree of /repo's HEAD, run the check against it, undo
+# (the checks honour VERIF_REPO; evidence/replays of these runs go to /tmp so that /verif/evidence keeps the clean-tree records)
 id=$1; patch=$2; label=$3
-cd /repo && git apply "$patch" || { echo "EVAL $label PATCH-FAILED"; exit 1; }
-cd /verif && s=$(date +%s) && ./check $id --tier quick > /tmp/seed-eval-$label.log 2>&1; rc=$?
-cd /repo && git checkout -- .
-echo "EVAL $label rc=$rc wall=$(( $(date +%s) - s ))s $(grep -c '^VIOLATION' /tmp/seed-eval-$label.log) violations; $(grep -m1 '^VIOLATION\|^INCONCLUSIVE' /tmp/seed-eval-$label.log | cut -c1-160)"
+W=/tmp/repo-eval
+cd $W && git checkout -q --detach $(git -C /repo rev-parse HEAD) && git checkout -q -- . && git apply "$patch" || { echo "EVAL $label PATCH-FAILED"; exit 1; }
+cd /verif && s=$(date +%s) && VERIF_REPO=$W VERIF_EVIDENCE_DIR=/tmp/eval-evidence VERIF_REPLAY_DIR=/tmp/eval-replays ./check $id --tier quick > /tmp/seed-eval-$label.log 2>&1; rc=$?
+cd $W && git checkout -q -- .
+echo "EVAL $label rc=$rc wall=$(( $(date +%s) - s ))s $(grep -c '^VIOLATION' /tmp/seed-eval-$label.log) violations; $(grep -m1 '^VIOLATION\|^INCONCLUSIVE' /tmp/seed-eval-$label.log | cut -c1-260)"
